@@ -104,9 +104,17 @@ where
         });
     }
 
-    let variable_fee = action
+    // The fee must be exactly `base + multiplier * variable_component`. If that is not
+    // representable, fail rather than silently charging a saturated (i.e. different) amount.
+    let total_fee = action
         .variable_component()
-        .saturating_mul(fees.multiplier());
-    let total_fee = fees.base().saturating_add(variable_fee);
+        .checked_mul(fees.multiplier())
+        .and_then(|variable_fee| fees.base().checked_add(variable_fee))
+        .ok_or_else(|| CheckedActionFeeError::FeeOverflow {
+            action_name: action.name(),
+            base: fees.base(),
+            multiplier: fees.multiplier(),
+            variable_component: action.variable_component(),
+        })?;
     Ok(Some((fee_asset, total_fee)))
 }
